@@ -35,6 +35,15 @@ def stepLine (st : St) (line : String) : St × List String :=
       | none => (st, ["ev err"])
   | ["recerr"] => (st, if st.types.isSome then ["ev err"] else [])
   | ["dump"] => (st, st.table.map showRow ++ ["end"])
+  -- the real program run twice on one table (records of run 1, then of run 2), then a restart
+  | "prec" :: _ :: ws =>
+    match st.types with
+    | none => (st, [])
+    | some ts =>
+      match importRecord st.cfg ts (some (parseRec ws)) with
+      | some row => ({ st with table := st.table ++ [row] }, [])
+      | none => (st, [])
+  | ["prog-dump"] => (st, st.table.map showRow ++ ["end"])
   | _ => (st, [])
 
 /-- Judge (C19): every record is either an error or exactly one new row holding the
@@ -66,6 +75,19 @@ def judgeLine (j : J) (op : String) (outs : List String) : J × List String :=
       let v := if gotOk != exp.isSome then
           [s!"VIOLATION case={j.caseId} sig=csv:{if gotOk then "bad-record-accepted" else "good-record-refused"} op=[{(op.take 200).toString}]"] else []
       ({ j with expected := j.expected ++ (if gotOk then [exp.getD []] else []) }, v)
+  | "prec" :: _ :: ws =>
+    match j.types with
+    | none => (j, [])
+    | some ts =>
+      match expectedRow j.cfg ts (parseRec ws) with
+      | some row => ({ j with expected := j.expected ++ [row] }, [])
+      | none => (j, [])
+  | ["prog-dump"] =>
+    let got := outs.filter (·.startsWith "row ")
+    let want := j.expected.map showRow
+    if outs.any (· == "panic") then (j, [s!"VIOLATION case={j.caseId} sig=csv:panic"])
+    else if got == want then (j, [])
+    else (j, [s!"VIOLATION case={j.caseId} sig=csv:program-rows-differ-after-restart want=[{(" | ".intercalate want).take 300}] got=[{(" | ".intercalate got).take 300}]"])
   | ["dump"] =>
     let got := outs.filter (·.startsWith "row ")
     let want := j.expected.map showRow
